@@ -414,7 +414,7 @@ func (r *coreRun) runThread(ts ThreadSpec) {
 				ni.prefix, ni.tags = p.prefix, mergeTags(p.tags, tg)
 			} else {
 				ns = p.s.SubScope(op.Name)
-				ni.prefix, ni.tags = qualify(p.prefix, op.Name), p.tags
+				ni.prefix, ni.tags = qualify(p.prefix, r.nm(op.Name)), p.tags
 			}
 			ni.s = ns
 			ni.inert = ns == tally.NoopScope
@@ -424,16 +424,16 @@ func (r *coreRun) runThread(ts ThreadSpec) {
 		case "inc":
 			c := h.s.Counter(op.M)
 			c.Inc(r.concrete(op.V))
-			r.log(M{"e": "inc", "t": ts.Name, "id": renderID(qualify(h.prefix, op.M), h.tags), "o": h.obj, "v": op.V, "inert": h.inert})
+			r.log(M{"e": "inc", "t": ts.Name, "id": renderID(qualify(h.prefix, r.nm(op.M)), h.tags), "o": h.obj, "v": op.V, "inert": h.inert})
 		case "upd":
 			g := h.s.Gauge(op.M)
-			id := renderID(qualify(h.prefix, op.M), h.tags)
+			id := renderID(qualify(h.prefix, r.nm(op.M)), h.tags)
 			r.log(M{"e": "updcall", "t": ts.Name, "id": id, "v": int(op.V)})
 			g.Update(math.Float64frombits(r.gtab[op.V]))
 			r.log(M{"e": "updret", "t": ts.Name, "id": id})
 		case "rec":
 			tm := h.s.Timer(op.M)
-			id := renderID(qualify(h.prefix, op.M), h.tags)
+			id := renderID(qualify(h.prefix, r.nm(op.M)), h.tags)
 			r.log(M{"e": "timercall", "t": ts.Name, "id": id, "v": int(op.V), "inert": h.inert})
 			tm.Record(timerTable[op.V])
 			r.log(M{"e": "timerret", "t": ts.Name})
@@ -447,12 +447,12 @@ func (r *coreRun) runThread(ts ThreadSpec) {
 					break
 				}
 			}
-			r.log(M{"e": "inc", "t": ts.Name, "id": renderID(qualify(h.prefix, op.M), h.tags) + fmt.Sprintf("[%v]", up), "o": h.obj, "v": 1, "inert": h.inert})
+			r.log(M{"e": "inc", "t": ts.Name, "id": renderID(qualify(h.prefix, r.nm(op.M)), h.tags) + fmt.Sprintf("[%v]", up), "o": h.obj, "v": 1, "inert": h.inert})
 		case "hnew":
 			// create a histogram with the V-th specification of the colliding pool and log the bounds it really uses
 			spec := c20Pool[op.V]
 			tb := bucketTables[0]
-			id := renderID(qualify(h.prefix, op.M), h.tags)
+			id := renderID(qualify(h.prefix, r.nm(op.M)), h.tags)
 			h.s.Histogram(op.M, tb.buckets(spec))
 			ws := append([]int{}, spec.Elems...)
 			sort.Ints(ws)
@@ -482,7 +482,7 @@ func (r *coreRun) runThread(ts ThreadSpec) {
 			case "scope":
 				x = h.s.SubScope(op.M)
 			}
-			r.log(M{"e": "got", "t": ts.Name, "k": op.K, "id": renderID(qualify(h.prefix, op.M), h.tags), "so": h.obj, "obj": r.metricObj(x)})
+			r.log(M{"e": "got", "t": ts.Name, "k": op.K, "id": renderID(qualify(h.prefix, r.nm(op.M)), h.tags), "so": h.obj, "obj": r.metricObj(x)})
 		case "close":
 			r.log(M{"e": "closecall", "t": ts.Name, "o": h.obj})
 			if c, ok := h.s.(io.Closer); ok {
@@ -610,6 +610,21 @@ func newCoreRun(sc *Scenario, withSched bool) *coreRun {
 }
 
 func (r *coreRun) doneClosed() bool { return r.rootDone }
+
+// nm is a metric / sub-scope name as the scenario's sanitizer leaves it
+func (r *coreRun) nm(s string) string {
+	if !r.sc.Sanitize {
+		return s
+	}
+	return sanitizeOne(s)
+}
+
+func sanitizeOne(s string) string {
+	for k := range coreSanitizeMap(map[string]string{s: ""}) {
+		return k
+	}
+	return s
+}
 
 // coreSanitizeMap is the harness's own rendering of what the Sanitize scenarios' options do to a tag map
 func coreSanitizeMap(m map[string]string) map[string]string {
